@@ -99,6 +99,8 @@ def build(P):
     P.uncover("maximality of the NUMBER of label-correct pairs is not a proof obligation: it follows from the verified 'no label pair is left among the unpaired' because objects of equal "
               "label and camera form complete bipartite classes (argued in DESIGN.md), and is checked up to the stated bound")
     P.assume("label agreement of a pair is is_label_correct (policy table: C01's _get_score_table contract)")
+    P.assume("the four formulas are proved for 0 <= TP <= min(number of results, number of ground truths): with false-positive-labelled ground truths paired by uuid the code can count "
+             "more TPs than ground truths of that label (accuracy above 1) - observed, read as outside the quantifier's label assignments")
     P.assume("estimates / ground truths are lists of pairwise distinct objects with non-null uuids (posE / posG: each object knows its input position); for _get_object_results_with_id "
              "additionally uuids are unique per side and camera (the property's quantifier domain)")
 
